@@ -27,10 +27,10 @@ import (
 	"verifh/bridge"
 	"verifh/corpus"
 	"verifh/ev"
+	all "verifh/gen/all"
 	"verifh/model"
 	"verifh/refcodec"
 	rig "verifh/rig"
-	all "verifh/gen/all"
 )
 
 type rawResponse struct {
@@ -459,7 +459,7 @@ func serverSide(run *ev.Run, srv *rig.Server, caps []*capture, rng *rand.Rand, m
 							run.Sample(desc)
 						}
 					}
-					run.Distinct(GENERATION+"|http-server|" + j.c.kind + "|" + strings.SplitN(j.mu.class, ":", 2)[0] + "|" + statusClass(resp.status))
+					run.Distinct(GENERATION + "|http-server|" + j.c.kind + "|" + strings.SplitN(j.mu.class, ":", 2)[0] + "|" + statusClass(resp.status))
 				}
 			}
 		}()
@@ -597,7 +597,7 @@ func clientSide(run *ev.Run, ks *bridge.Set, srv *rig.Server, caps []*capture, r
 			if out != nil && out.Err != nil {
 				outcome = "error"
 			}
-			run.Distinct(GENERATION+"|http-client|" + c.kind + "|" + class + "|" + outcome)
+			run.Distinct(GENERATION + "|http-client|" + c.kind + "|" + class + "|" + outcome)
 		}
 	}
 }
